@@ -143,10 +143,10 @@ theorem lin_read_sees_committed (E : Exec) (sem : RaftSem E) (r : LinReadRun) (h
     cases hs : r.stored with
     | none => simp [LinReadRun.strongReadTerm, hs] at hne
     | some s =>
-      obtain ⟨sok, snode, sret⟩ := hr.stored_ok s hs
+      obtain ⟨sok, snode, tret, hsret, sret⟩ := hr.stored_ok s hs
       have hsrt : s.readTerm = r.readTerm := by
         have := hr.strong_term_eq; simp only [LinReadRun.strongReadTerm, hs] at this; exact this.symm
-      obtain ⟨⟨ta, ha1, ha2, hal⟩, hown, hcom⟩ := sem.apply_contract s.apply sok.applied
+      obtain ⟨_, _, ⟨ta, ha1, ha2, hal⟩, hown, hcom⟩ := sem.apply_contract s.apply tret (sok.returned tret hsret).1
       -- the entry was appended in the very term that was read
       have hat : s.apply.term = r.readTerm := by
         have e1 := sem.leader_term _ _ _ hal
@@ -160,7 +160,7 @@ theorem lin_read_sees_committed (E : Exec) (sem : RaftSem E) (r : LinReadRun) (h
       rw [hat, snode] at hown hcom
       have hlt' : i < s.apply.index := sem.leader_completeness i L T tc r.node r.readTerm _ hc hown hlt
       have hci := (sem.committed_by_leader _ _ _ _ hcom).2
-      have hm := sem.commit_mono r.node s.apply.tRet (r.at "s.raft.CommitIndex") (by omega)
+      have hm := sem.commit_mono r.node tret (r.at "s.raft.CommitIndex") (by omega)
       omega
   · -- committed in the same term: by this very node (election safety)
     obtain ⟨hl, hci⟩ := sem.committed_by_leader _ _ _ _ hc
@@ -173,9 +173,11 @@ theorem lin_read_sees_committed (E : Exec) (sem : RaftSem E) (r : LinReadRun) (h
 /-- a linearizable read never misses a write (or strong read) that was acknowledged
 before the read began -/
 theorem lin_read_sees_acked (E : Exec) (sem : RaftSem E) (r : LinReadRun) (hr : r.Ok E)
-    (w : LogOpRun) (hw : w.Ok E) (hbefore : w.tResp < r.tInv) : w.apply.index ≤ r.readIndex := by
-  obtain ⟨_, _, hcom⟩ := sem.apply_contract w.apply hw.applied
-  exact lin_read_sees_committed E sem r hr _ _ _ _ hcom (by have := hw.order3; omega)
+    (w : LogOpRun) (hw : w.Ok E) (tr : Nat) (hack : w.ret = some tr) (hbefore : w.tResp < r.tInv) :
+    w.apply.index ≤ r.readIndex := by
+  obtain ⟨hret, hle⟩ := hw.returned tr hack
+  obtain ⟨_, _, _, _, hcom⟩ := sem.apply_contract w.apply tr hret
+  exact lin_read_sees_committed E sem r hr _ _ _ _ hcom (by omega)
 
 /-- a deposed leader never serves such a read: if a leader of a LATER term had committed
 anything before the read's VerifyLeader was started, no run passes the guards -/
@@ -203,24 +205,16 @@ theorem deposed_leader_never_serves (E : Exec) (sem : RaftSem E) (r : LinReadRun
 at or below the read index — in particular every write acknowledged before the read
 began — has been applied to the database the read is answered from -/
 theorem lin_read_reflects_acked (E : Exec) (sem : RaftSem E) (r : LinReadRun) (hr : r.Ok E)
-    (w : LogOpRun) (hw : w.Ok E) (hbefore : w.tResp < r.tInv)
-    (es es' : List LinRead.Ev) (n later : LinRead.Node)
-    (hn : n = LinRead.run {} es) (hl : later = LinRead.run n es')
-    (hidx : n.commit = r.readIndex)
-    (hcmd : n.typeAt w.apply.index = some (some .command))
-    (hwait : LinRead.reached later (LinRead.target n) = true) :
-    w.apply.index ≤ later.handed := by
-  have hle := lin_read_sees_acked E sem r hr w hw hbefore
-  have hinv : LinRead.Inv n := by rw [hn]; exact LinRead.inv_run _ es LinRead.inv_init
-  have hinv2 : LinRead.Inv later := by rw [hl]; exact LinRead.inv_run _ es' hinv
-  have hm := LinRead.mono_run n es'
-  rw [← hl] at hm
-  rcases LinRead.scan_spec_B n hinv n.commit hinv.commit_le_len w.apply.index (by omega) hcmd with hb | hb
-  · have : LinRead.target n ≤ later.fsmIdx := by simpa [LinRead.reached] using hwait
-    have := hinv2.fsm_le_handed
-    unfold LinRead.target at *
-    omega
-  · omega
+    (w : LogOpRun) (hw : w.Ok E) (tr : Nat) (hack : w.ret = some tr) (hbefore : w.tResp < r.tInv)
+    (es es1 es2 : List LinRead.Ev) (hno1 : LinRead.NoReopen es1) (hno2 : LinRead.NoReopen es2)
+    (hidx : (LinRead.run {} es).commit = r.readIndex)
+    (hcmd : (LinRead.run (LinRead.run {} es) es1).typeAt w.apply.index = some (some .command))
+    (hwait : LinRead.reached (LinRead.run (LinRead.run (LinRead.run {} es) es1) es2)
+        (LinRead.targetAt (LinRead.run (LinRead.run {} es) es1) (LinRead.run {} es).commit) = true) :
+    w.apply.index ≤ (LinRead.run (LinRead.run (LinRead.run {} es) es1) es2).handed := by
+  have hle := lin_read_sees_acked E sem r hr w hw tr hack hbefore
+  have hinv : LinRead.Inv (LinRead.run {} es) := LinRead.inv_run _ es LinRead.inv_init
+  exact LinRead.wait_ok_applied _ hinv es1 es2 hno1 hno2 hwait _ (by omega) hcmd
 
 /-! ## 3. real-time order of the operations (the linearization points) -/
 
@@ -229,10 +223,12 @@ acknowledged before `b` was invoked, `a`'s log index is smaller. Since the FSM a
 command entries in index order, a strong read sees every write acknowledged before it
 began and no write invoked after it returned. -/
 theorem strong_read_linearizable (E : Exec) (sem : RaftSem E) (a b : LogOpRun)
-    (ha : a.Ok E) (hb : b.Ok E) (hbefore : a.tResp < b.tInv) : a.apply.index < b.apply.index := by
-  obtain ⟨_, _, hcom⟩ := sem.apply_contract a.apply ha.applied
-  exact sem.append_above_committed _ _ _ _ b.apply hcom hb.applied
-    (by have := ha.order3; have := hb.order1; have := hb.order2; omega)
+    (ha : a.Ok E) (hb : b.Ok E) (tr : Nat) (hack : a.ret = some tr) (hbefore : a.tResp < b.tInv) :
+    a.apply.index < b.apply.index := by
+  obtain ⟨hret, hle⟩ := ha.returned tr hack
+  obtain ⟨_, _, _, _, hcom⟩ := sem.apply_contract a.apply tr hret
+  exact sem.append_above_committed _ _ _ _ b.apply hcom hb.appended hb.committed
+    (by have := hb.order1; have := hb.order2; omega)
 
 /-- a log operation invoked after a linearizable read returned lies above everything the
 read observed -/
@@ -241,9 +237,9 @@ theorem later_write_not_observed (E : Exec) (sem : RaftSem E) (r : LinReadRun) (
   have hobs := hr.observed_committed
   obtain ⟨_, hrr⟩ := hr.read_after
   rcases sem.commit_is_committed r.node r.tRead with h0 | ⟨L, T, tc, htc, hc⟩
-  · have := sem.index_pos b.apply hb.applied
+  · have := sem.index_pos b.apply hb.appended
     omega
-  · have := sem.append_above_committed _ _ _ _ b.apply hc hb.applied
+  · have := sem.append_above_committed _ _ _ _ b.apply hc hb.appended hb.committed
       (by have := hb.order1; have := hb.order2; omega)
     omega
 
@@ -308,10 +304,30 @@ theorem nodup_of_sorted {α} (l : List α) (f : α → Nat) (hs : l.Pairwise (fu
   refine hs.imp ?_
   intro a b h e; subst e; omega
 
+/-- the wait, DERIVED by composing the attached node-level run (LinRead model) with its safety
+theorem: every committed log operation at or below the read index has been applied to the
+state the read observed -/
+theorem read_wait (E : Exec) (h : History) (m : ModelHistory E h) (q : Nat) (r : Nat) (hr : r ∈ m.reads q)
+    (a : Nat) (ha : a ∈ m.logOps) (hle : (m.logRun a).apply.index ≤ (m.linRun r).readIndex) :
+    (m.logRun a).apply.index ≤ (m.linRun r).observed := by
+  obtain ⟨hno1, hno2, hci, hobs, hreach, htyped⟩ := m.wait_ok q r hr
+  have hinv : LinRead.Inv (LinRead.run {} (m.waitEs r)) := LinRead.inv_run _ _ LinRead.inv_init
+  have hinv1 := LinRead.inv_run _ (m.waitEs1 r) hinv
+  rw [← hobs]
+  rcases htyped a ha hle with hc | hn
+  · exact LinRead.wait_ok_applied _ hinv _ _ hno1 hno2 hreach _ (by omega) hc
+  · have h1 := hinv1.compacted_handed _ hn
+    have h2 := (LinRead.mono_run _ hinv1 (m.waitEs2 r) hno2).1
+    omega
+
 /-- **Every history of the model is linearizable**: a client history that arises from an
 execution of an abstract cluster satisfying `RaftSem`, through runs of the rqlite
 protocol (`LogOpRun.Ok`, `LinReadRun.Ok`), with the FSM applying the log in order, has a
-linearization. Writes with unknown outcome are linearized iff they were committed. -/
+linearization. A write whose Apply failed or timed out (no response to the client) is part
+of `logOps`, hence of the linearization, exactly when its entry was committed.
+Assumed conjuncts of `ModelHistory` (not derived): `read_val`, `log_val` (deterministic
+FSM/SQLite), the log-typing conjunct of `wait_ok` (Log Matching), `read_pos` (what "observed"
+means). Derived: the wait (`read_wait`), all real-time order facts. -/
 theorem history_linearizable (E : Exec) (sem : RaftSem E) (h : History) (m : ModelHistory E h) :
     Linearizable h := by
   classical
@@ -342,14 +358,16 @@ theorem history_linearizable (E : Exec) (sem : RaftSem E) (h : History) (m : Mod
     · -- log, log
       obtain ⟨oka, _, hra⟩ := m.log_ok a ha
       obtain ⟨okb, hib, _⟩ := m.log_ok b hb
-      have := strong_read_linearizable E sem _ _ oka okb (by rw [← hra t hta, ← hib]; exact hlt)
+      obtain ⟨⟨tr, hack⟩, htr⟩ := hra t hta
+      have := strong_read_linearizable E sem _ _ oka okb tr hack (by rw [← htr, ← hib]; exact hlt)
       have := idxOf_sorted m.logOps (fun x => (m.logRun x).apply.index) m.log_sorted a b ha hb this
       simp only [rk, ha, hb, if_true]; omega
     · -- log, read
       obtain ⟨oka, _, hra⟩ := m.log_ok a ha
       obtain ⟨okb, hib, _, hp, hq, hnl⟩ := m.read_ok qb b hb
-      have h1 := lin_read_sees_acked E sem _ okb _ oka (by rw [← hra t hta, ← hib]; exact hlt)
-      have h2 := m.read_wait qb b hb a ha h1
+      obtain ⟨⟨tr, hack⟩, htr⟩ := hra t hta
+      have h1 := lin_read_sees_acked E sem _ okb _ oka tr hack (by rw [← htr, ← hib]; exact hlt)
+      have h2 := read_wait E h m qb b hb a ha h1
       obtain ⟨hl, hg⟩ := hget a ha
       have := (m.read_pos qb b hb _ hl).1 (by rw [hg]; exact h2)
       simp only [rk, ha, hnl, if_true, if_false, hp]; omega
@@ -378,7 +396,7 @@ theorem history_linearizable (E : Exec) (sem : RaftSem E) (h : History) (m : Mod
         have hmem : m.logOps.getD qb 0 ∈ m.logOps := by
           have : m.logOps.getD qb 0 = m.logOps[qb] := by simp [List.getD, hl]
           rw [this]; exact List.getElem_mem hl
-        have hb1 := m.read_wait qb b hb _ hmem (by omega)
+        have hb1 := read_wait E h m qb b hb _ hmem (by omega)
         have := (m.read_pos qb b hb qb hl).1 hb1
         omega
       simp only [rk, hnla, hnlb, if_false, hpa, hpb]; omega
@@ -437,22 +455,31 @@ example :
     let h : History := [⟨0, some 5, .write 1 10⟩, ⟨6, some 9, .write 1 11⟩, ⟨10, some 12, .read 1 (some 10)⟩]
     checkWitness h [0, 1, 2] = false ∧ checkWitness h [0, 2, 1] = false ∧ checkWitness h [1, 0, 2] = false := by decide
 
-/-- `RaftSem` and the run predicates are satisfiable together: a one-node cluster in which
-the node is leader of term 1 throughout, appends a strong read at index 2 during
-[2,4], and then serves a linearizable read. -/
+/-- `RaftSem` and the run predicates are satisfiable together, INCLUDING the central fault
+case: a one-node cluster whose node is leader of term 1 throughout. A write is appended at
+index 2 by an Apply that never returns to the client (unknown outcome); a strong read is
+appended at index 3 and returns at instant 4, when both entries are committed; then a
+linearizable read is served. -/
+def wApp : AppendRun := ⟨0, 1, 2, 1⟩
+def sApp : AppendRun := ⟨0, 2, 3, 1⟩
+
 def demoExec : Exec where
   term := fun _ _ => 1
-  commitIdx := fun _ t => if t < 4 then 0 else 2
+  commitIdx := fun _ t => if t < 4 then 0 else 3
   leaderAt := fun n T _ => n = 0 ∧ T = 1
-  committedBy := fun i L T tc => L = 0 ∧ T = 1 ∧ 4 ≤ tc ∧ i ≤ 2
-  ownEntry := fun n T j => n = 0 ∧ T = 1 ∧ j = 2
-  applyOk := fun a => a = ⟨0, 2, 4, 2, 1⟩
+  committedBy := fun i L T tc => L = 0 ∧ T = 1 ∧ 4 ≤ tc ∧ i ≤ 3
+  ownEntry := fun n T j => n = 0 ∧ T = 1 ∧ (j = 2 ∨ j = 3)
+  appended := fun a => a = wApp ∨ a = sApp
+  entryCommitted := fun a => a = wApp ∨ a = sApp
+  applyRet := fun a t => a = sApp ∧ t = 4
   verifyOk := fun n t0 t1 => n = 0 ∧ t0 ≤ t1
 
-def demoStrong : LogOpRun := ⟨1, 1, 1, ⟨0, 2, 4, 2, 1⟩, 5⟩
+/-- the write whose Apply never returned: the client saw no response -/
+def demoWrite : LogOpRun := ⟨1, 1, 1, wApp, none, 0⟩
+def demoStrong : LogOpRun := ⟨1, 1, 1, sApp, some 4, 5⟩
 def demoRead : LinReadRun :=
   { node := 0, tInv := 6, tReadTerm := 6, readTerm := 1, steps := [7, 7, 7, 8, 9, 11, 11, 11],
-    stored := some demoStrong, tVerifyEnd := 10, readIndex := 2, tRead := 12, observed := 2, tResp := 13 }
+    stored := some demoStrong, tVerifyEnd := 10, readIndex := 3, tRead := 12, observed := 3, tResp := 13 }
 
 theorem demoSem : RaftSem demoExec := by
   refine ⟨?_, ?_, ?_, ?_, ?_, ?_, ?_, ?_, ?_, ?_, ?_⟩
@@ -466,18 +493,17 @@ theorem demoSem : RaftSem demoExec := by
   · intro n T t h; simp only [demoExec] at h ⊢; omega
   · intro L L' T t t' h h'; simp only [demoExec] at h h'; omega
   · intro i L T tc n T' j h h' hlt; simp only [demoExec] at h h'; omega
-  · intro i L T tc a h ha hle
+  · intro i L T tc a h ha _ hle
     simp only [demoExec] at h ha
-    subst ha
-    simp only at hle; omega
+    rcases ha with rfl | rfl <;> simp only [wApp, sApp] at hle <;> omega
+  · intro a t h
+    simp only [demoExec] at h
+    obtain ⟨rfl, rfl⟩ := h
+    exact ⟨Or.inr rfl, Or.inr rfl, ⟨2, by decide, by decide, ⟨rfl, rfl⟩⟩, ⟨rfl, rfl, Or.inr rfl⟩,
+      ⟨rfl, rfl, by decide, by decide⟩⟩
   · intro a ha
     simp only [demoExec] at ha
-    subst ha
-    exact ⟨⟨2, by decide, by decide, ⟨rfl, rfl⟩⟩, ⟨rfl, rfl, rfl⟩, ⟨rfl, rfl, by decide, by decide⟩⟩
-  · intro a ha
-    simp only [demoExec] at ha
-    subst ha
-    decide
+    rcases ha with rfl | rfl <;> decide
   · intro n t
     simp only [demoExec]
     by_cases h : t < 4
@@ -488,103 +514,120 @@ theorem demoSem : RaftSem demoExec := by
     refine ⟨?_, t0, Nat.le_refl _, h.2, h.1, h0.symm⟩
     intro i L T tc hc _; omega
 
-example : demoStrong.Ok demoExec := by
-  refine ⟨by decide, by decide, by decide, rfl, rfl⟩
+theorem demoWrite_ok : demoWrite.Ok demoExec :=
+  ⟨by decide, by decide, rfl, Or.inl rfl, Or.inl rfl, fun t h => by simp [demoWrite] at h⟩
 
-example : demoRead.Ok demoExec := by
+theorem demoStrong_ok : demoStrong.Ok demoExec :=
+  ⟨by decide, by decide, rfl, Or.inr rfl, Or.inr rfl, fun t h => by
+    have : t = 4 := by simpa [demoStrong] using h.symm
+    subst this
+    exact ⟨⟨rfl, rfl⟩, by decide⟩⟩
+
+theorem demoRead_ok : demoRead.Ok demoExec := by
   refine ⟨by decide, by decide, by decide, by decide, rfl, rfl, ?_, ?_, ?_, by decide, rfl, by decide, ?_⟩
   · intro s hs
     have : s = demoStrong := by simpa [demoRead] using hs.symm
     subst this
-    exact ⟨⟨by decide, by decide, by decide, rfl, rfl⟩, rfl, by decide⟩
+    exact ⟨demoStrong_ok, rfl, 4, rfl, by decide⟩
   · simp [demoRead, demoExec, LinReadRun.at, idx_commit]
   · exact ⟨rfl, by decide⟩
   · simp [demoRead, demoExec]
 
-/-- the demo execution of C02 as a client history: the strong read (no row for key 1),
-then the linearizable read -/
-def demoHistory : History := [⟨1, some 5, .read 1 none⟩, ⟨6, some 13, .read 1 none⟩]
+/-- the demo as a client history: the write WITHOUT a response, the strong read and the
+linearizable read that both return the written value -/
+def demoHistory : History :=
+  [⟨1, none, .write 1 10⟩, ⟨1, some 5, .read 1 (some 10)⟩, ⟨6, some 13, .read 1 (some 10)⟩]
+
+def demoWaitEs : List LinRead.Ev :=
+  [.append .noop, .append .command, .append .command, .commit 3, .fsm, .fsm, .fsm]
 
 def demoModel : ModelHistory demoExec demoHistory where
-  logOps := [0]
-  reads := fun q => if q = 1 then [1] else []
-  pos := fun _ => 1
-  logRun := fun _ => demoStrong
+  logOps := [0, 1]
+  reads := fun q => if q = 2 then [2] else []
+  pos := fun _ => 2
+  logRun := fun i => if i = 0 then demoWrite else demoStrong
   linRun := fun _ => demoRead
+  waitEs := fun _ => demoWaitEs
+  waitEs1 := fun _ => []
+  waitEs2 := fun _ => []
   log_ok := by
     intro i hi
-    simp only [List.mem_singleton] at hi
-    subst hi
-    refine ⟨⟨by decide, by decide, by decide, rfl, rfl⟩, rfl, ?_⟩
-    intro t ht
-    simp [demoHistory, opAt] at ht
-    simp [demoStrong, ← ht]
-  log_sorted := by simp
+    simp only [List.mem_cons, List.mem_singleton, List.not_mem_nil, or_false] at hi
+    rcases hi with rfl | rfl
+    · refine ⟨demoWrite_ok, rfl, ?_⟩
+      intro t ht; simp [demoHistory, opAt] at ht
+    · refine ⟨demoStrong_ok, rfl, ?_⟩
+      intro t ht
+      simp [demoHistory, opAt] at ht
+      subst ht
+      exact ⟨⟨4, rfl⟩, rfl⟩
+  log_sorted := by simp [demoWrite, demoStrong, wApp, sApp]
   read_ok := by
     intro q r hr
-    by_cases hq : q = 1
+    by_cases hq : q = 2
     · subst hq
       simp only [if_true, List.mem_singleton] at hr
       subst hr
-      refine ⟨?_, rfl, rfl, rfl, by decide, by decide⟩
-      refine ⟨by decide, by decide, by decide, by decide, rfl, rfl, ?_, ?_, ?_, by decide, rfl, by decide, ?_⟩
-      · intro s hs
-        have : s = demoStrong := by simpa [demoRead] using hs.symm
-        subst this
-        exact ⟨⟨by decide, by decide, by decide, rfl, rfl⟩, rfl, by decide⟩
-      · simp [demoRead, demoExec, LinReadRun.at, idx_commit]
-      · exact ⟨rfl, by decide⟩
-      · simp [demoRead, demoExec]
+      exact ⟨demoRead_ok, rfl, rfl, rfl, by decide, by decide⟩
     · simp [hq] at hr
   read_pos := by
     intro q r hr j hj
-    by_cases hq : q = 1
+    by_cases hq : q = 2
     · subst hq
-      simp only [List.length_singleton] at hj
-      have : j = 0 := by omega
-      subst this
-      simp [demoStrong, demoRead]
+      simp only [List.length_cons, List.length_nil] at hj
+      match j, hj with
+      | 0, _ => simp [demoWrite, demoRead, wApp]
+      | 1, _ => simp [demoStrong, demoRead, sApp]
     · simp [hq] at hr
-  read_wait := by
-    intro q r hr a ha _
-    simp [demoStrong, demoRead]
-  reads_nodup := by intro q; by_cases hq : q = 1 <;> simp [hq]
-  reads_sorted := by intro q; by_cases hq : q = 1 <;> simp [hq]
+  wait_ok := by
+    intro q r hr
+    refine ⟨fun _ h => by simp at h, fun _ h => by simp at h, by decide, by decide, by decide, ?_⟩
+    intro a ha _
+    simp only [List.mem_cons, List.mem_singleton, List.not_mem_nil, or_false] at ha
+    rcases ha with rfl | rfl <;> left <;> decide
+  reads_nodup := by intro q; by_cases hq : q = 2 <;> simp [hq]
+  reads_sorted := by intro q; by_cases hq : q = 2 <;> simp [hq]
   in_range := by
     intro x hx
     rcases hx with hx | ⟨q, hx⟩
-    · simp only [List.mem_singleton] at hx; subst hx; decide
-    · by_cases hq : q = 1
+    · simp only [List.mem_cons, List.mem_singleton, List.not_mem_nil, or_false] at hx
+      rcases hx with rfl | rfl <;> decide
+    · by_cases hq : q = 2
       · simp [hq] at hx; subst hx; decide
       · simp [hq] at hx
   complete := by
-    intro i hi _
+    intro i hi hne
     simp only [demoHistory, List.length_cons, List.length_nil] at hi
     match i, hi with
     | 0, _ => exact Or.inl (by simp)
-    | 1, _ => exact Or.inr ⟨1, by decide, by simp⟩
+    | 1, _ => exact Or.inl (by simp)
+    | 2, _ => exact Or.inr ⟨2, by decide, by simp⟩
   read_val := by
     intro q r hr
-    by_cases hq : q = 1
+    by_cases hq : q = 2
     · simp [hq] at hr; subst hr; subst hq
-      exact ⟨1, none, rfl, by decide⟩
+      exact ⟨1, some 10, rfl, by decide⟩
     · simp [hq] at hr
   log_val := by
     intro j hj k res hk
-    simp only [List.length_singleton] at hj
-    have : j = 0 := by omega
-    subst this
-    simp [demoHistory, opAt] at hk
-    obtain ⟨rfl, rfl⟩ := hk
-    decide
+    simp only [List.length_cons, List.length_nil] at hj
+    match j, hj with
+    | 0, _ => simp [demoHistory, opAt] at hk
+    | 1, _ =>
+      simp [demoHistory, opAt] at hk
+      obtain ⟨rfl, rfl⟩ := hk
+      decide
   inv_lt_resp := by
     intro i t ht
     match i with
-    | 0 => simp [demoHistory, opAt] at ht ⊢; omega
+    | 0 => simp [demoHistory, opAt] at ht
     | 1 => simp [demoHistory, opAt] at ht ⊢; omega
-    | i + 2 => simp [demoHistory, opAt] at ht
+    | 2 => simp [demoHistory, opAt] at ht ⊢; omega
+    | i + 3 => simp [demoHistory, opAt] at ht
 
-example : Linearizable demoHistory :=
-  history_linearizable demoExec demoSem demoHistory demoModel
+/-- the demo history — with its unacknowledged but committed write — is linearizable, and the
+executable checker accepts the order that contains that write -/
+example : Linearizable demoHistory := history_linearizable demoExec demoSem demoHistory demoModel
+example : checkWitness demoHistory [0, 1, 2] = true ∧ checkWitness demoHistory [1, 2] = false := by decide
 
 end C02
